@@ -104,13 +104,18 @@ theorem wf_leave_continues (env : Env) (fuel : Nat) (kvs : List (Str × Json)) (
     ∃ next, defined kvs next = true ∧
       leave env (fuel + 1) (.obj kvs) name state raw data ctx r st =
         runFrom env fuel (.obj kvs) next data ctx 0 st := by
-  by_cases hE : isTrue (fld state "End") = true
-  · left; simp [leave, hE]
-  · have hE' : isTrue (fld state "End") = false := by simpa using hE
-    obtain ⟨n, hn, hdn⟩ := leaveOk_next hl hE'
-    by_cases hlen : (render data).length > env.maxData
-    · right; left; simp [leave, hE', hn, hlen]
-    · right; right; exact ⟨n, hdn, by simp [leave, hE', hn, hlen]⟩
+  by_cases hlen : (render data).length > env.maxData
+  · right; left
+    by_cases hE : isTrue (fld state "End") = true
+    · simp [leave, hE, hlen]
+    · have hE' : isTrue (fld state "End") = false := by simpa using hE
+      obtain ⟨n, hn, hdn⟩ := leaveOk_next hl hE'
+      simp [leave, hE', hn, hlen]
+  · by_cases hE : isTrue (fld state "End") = true
+    · left; simp [leave, hE, hlen]
+    · have hE' : isTrue (fld state "End") = false := by simpa using hE
+      obtain ⟨n, hn, hdn⟩ := leaveOk_next hl hE'
+      right; right; exact ⟨n, hdn, by simp [leave, hE', hn, hlen]⟩
 
 /-- every state of a well-formed definition's top scope has one of the eight Types, and the
 definition's `StartAt` is one of them (the real `run` enters the interpreter) -/
